@@ -33,7 +33,12 @@ F3 == { [Base EXCEPT !.patch = "url", !.phash = h, !.purl = u, !.pcache = c, !.c
 F4 == { [s EXCEPT !.diff = d, !.patch = p, !.pdir = (IF p = "dir" THEN "present" ELSE "absent"), !.cmd = k] :
             s \in {Base, [Base EXCEPT !.mode = "url", !.url = "good", !.files = "absent"]},
             d \in {"good", "bad", "missing"}, p \in {"none", "dir"}, k \in {"download", "setup"} }
-Families == F1 \cup F2 \cup F3 \cup F4
+\* F5: wraps fetched by a VCS client, alone and followed by overlay / diff
+F5 == { [Vcs(Base, kd, v, r) EXCEPT !.files = "absent", !.cmd = k] :
+            kd \in Kinds \ {"file"}, v \in {"ok", "fail"}, r \in {"head", "pinned"}, k \in Cmds }
+      \cup { [Vcs(Base, kd, "ok", "pinned") EXCEPT !.files = "absent", !.patch = "dir", !.pdir = d, !.diff = df, !.cmd = k] :
+            kd \in Kinds \ {"file"}, d \in {"absent", "present"}, df \in {"none", "bad"}, k \in {"download", "setup_nodl"} }
+Families == F1 \cup F2 \cup F3 \cup F4 \cup F5
 
 \* the full product, without the fields that are irrelevant for the chosen modes
 SrcT == ({"url"} \X B \X Locs \X ({"none"} \cup Locs) \X Locs \X {"absent"})
@@ -44,6 +49,10 @@ PatT == { <<"none", TRUE, "absent", "absent", "absent", "ok", "absent">> }
         \cup ({"dir"} \X {TRUE} \X {"absent"} \X {"absent"} \X {"absent"} \X {"ok"} \X {"absent", "present"})
 All == { Scenario(s[1], s[2], s[3], s[4], s[5], s[6], a, p[1], p[2], p[3], p[4], p[5], p[6], p[7], d, k) :
             s \in SrcT, a \in Shapes, p \in PatT, d \in {"none", "good", "bad", "missing"}, k \in Cmds }
+       \cup { Vcs(Scenario("files", TRUE, "absent", "none", "absent", "absent", "ok",
+                          p[1], p[2], p[3], p[4], p[5], p[6], p[7], d, k), kd, v, r) :
+               kd \in Kinds \ {"file"}, v \in {"ok", "fail"}, r \in {"head", "pinned"},
+               p \in PatT, d \in {"none", "good", "bad", "missing"}, k \in Cmds }
 Scenarios == IF Universe = "all" THEN All ELSE Families
 \* the replayed families are part of the full product
 ASSUME Universe = "all" => Families \subseteq All
@@ -73,8 +82,19 @@ Start == /\ pc = "start"
             THEN End(sc.cmd = "download" \/ "build" \in fs.dir, fs)
             ELSE Goto("locate") /\ UNCHANGED <<w, from, hand, fs, fetched>>
 
+\* a VCS wrap: the client is run - unless downloading is switched off
+Clone == /\ pc = "clone"
+         /\ Goto("cloned") /\ fetched' = fetched \cup {<<"src", "vcs">>} /\ UNCHANGED <<w, from, hand, fs>>
+Cloned == /\ pc = "cloned"
+          /\ IF sc.vcs = "ok"
+             THEN Goto("patch") /\ fs' = [fs EXCEPT !.dir = {"build", "src"}] /\ UNCHANGED <<w, from, hand, fetched>>
+             ELSE Fail
+
 Locate == /\ pc = "locate"
-          /\ IF Mode(sc, w) = "url"
+          /\ IF w = "src" /\ sc.kind # "file"
+             THEN IF NoDownload(sc) THEN Fail
+                  ELSE Goto("clone") /\ UNCHANGED <<w, from, hand, fs, fetched>>
+             ELSE IF Mode(sc, w) = "url"
              THEN IF Cache(fs, w) # "absent"
                   THEN Goto("verify") /\ from' = "cache" /\ hand' = Cache(fs, w) /\ UNCHANGED <<w, fs, fetched>>
                   ELSE IF NoDownload(sc) THEN Fail
@@ -131,13 +151,13 @@ Diff == /\ pc = "diff"
 Cleanup == /\ pc = "cleanup"
            /\ End(FALSE, [fs EXCEPT !.dir = {}])
 
-Next == Start \/ Locate \/ Fetch \/ Verify \/ Use \/ Patch \/ Diff \/ Cleanup \/ NextRun
+Next == Start \/ Locate \/ Clone \/ Cloned \/ Fetch \/ Verify \/ Use \/ Patch \/ Diff \/ Cleanup \/ NextRun
 Spec == Init /\ [][Next]_vars
 
 Boundary == pc = "ended"
 LastOk == status[Len(status)]
 
-TypeOK == /\ pc \in {"start", "locate", "fetch", "verify", "use", "patch", "diff", "cleanup", "ended"}
+TypeOK == /\ pc \in {"start", "locate", "clone", "cloned", "fetch", "verify", "use", "patch", "diff", "cleanup", "ended"}
           /\ fs.dir \subseteq {"build", "src", "part", "evil", "patch", "evilpatch", "diff"}
           /\ fs.cache \in Locs /\ fs.pcache \in Locs /\ Len(status) <= 2
 
@@ -145,6 +165,13 @@ TypeOK == /\ pc \in {"start", "locate", "fetch", "verify", "use", "patch", "diff
 NeverUnpackBadHash == ~BadHashUsed(sc, fs)
 \* nothing is fetched under wrap_mode=nodownload, the package cache stays as it was
 NodownloadFetchesNothing == NoDownload(sc) => fetched = {} /\ fs.cache = sc.cache /\ fs.pcache = sc.pcache
+\* ... for every kind of wrap: no client is run, and a VCS wrap's directory never appears
+NoDownloadNeverFetches ==
+    NoDownload(sc) => /\ fetched = {} /\ RunOnce(sc, fs0).calls = <<>>
+                      /\ (sc.kind # "file" => fs.dir = {} /\ (Boundary => ~LastOk))
+\* outside nodownload a VCS wrap whose sources are missing runs its client
+ClientRunsWhenAllowed ==
+    sc.kind # "file" /\ ~NoDownload(sc) /\ fs0.dir = {} => RunOnce(sc, fs0).calls = ClientCalls(sc)
 \* a run that fails leaves no directory that was not there before
 FailedPatchLeavesNoDir == Boundary /\ ~LastOk /\ fs0.dir = {} => fs.dir = {}
 \* no run - in particular no second run - reports success on a half-prepared subproject
